@@ -25,6 +25,10 @@ def cmat_nat(a):
     return clist([cnats(r) for r in np.asarray(a).tolist()])
 
 
+def cbools(l):
+    return clist(['true' if bool(x) else 'false' for x in np.asarray(l).tolist()])
+
+
 def czs(l):
     return clist([cz(int(x)) for x in l])
 
@@ -34,7 +38,7 @@ def czs(l):
 def correspondence(ctx, gen_ok):
     import skfem
     rng = np_seed(ctx, 18)
-    reix_cases, tag_cases, fac_cases, split_cases, ext_cases, join_cases, carry_cases = [], [], [], [], [], [], []
+    reix_cases, tag_cases, fac_cases, split_cases, ext_cases, join_cases, carry_cases, remap_cases = [], [], [], [], [], [], [], []
     # (a) _reix on arbitrary index matrices
     base = skfem.MeshTri1()
     for k in range(ctx.n(40, 200)):
@@ -116,6 +120,26 @@ def correspondence(ctx, gen_ok):
         Md = md.remove_duplicate_nodes()
         join_cases.append((f'(inr ({cnat(srt)}, {zcols(md.p)}, {cmat_nat(md.t)}))', f'({zcols(Md.p)}, {cmat_nat(Md.t)})',
                            ('dedupe', name, int(Md.p.shape[1]), int(md.p.shape[1]))))
+    # (f) remove_duplicate_nodes: remapping of plain and oriented named boundaries
+    def cmat_z(a):
+        return clist([czs(r) for r in np.asarray(a).tolist()])
+    for k in range(ctx.n(16, 80)):
+        name = ['MeshTri1', 'MeshQuad1', 'MeshTet1', 'MeshHex1'][k % 4]
+        m1 = rand_mesh1(name, rng, size=[2, 3] if k % 4 < 2 else [2, 2, 2], integer=True)
+        pd, td = O.with_duplicates(m1, rng)
+        md = type(m1)(pd, td)
+        _, bnd = rand_tags(md, rng, oriented=True)
+        md = md.with_boundaries(bnd)
+        M = md.remove_duplicate_nodes()
+        tbl = (f'{cnat(md.t2f.shape[0])}, {zcols(md.p)}, {cmat_nat(md.t)}, {cmat_nat(md.facets.T)}, {cmat_z(md.f2t)}, '
+               f'{cmat_nat(M.facets.T)}, {cmat_nat(M.t2f)}, {czs(M.f2t[1])}')
+        for nm, b in bnd.items():
+            o = getattr(b, 'ori', None)
+            g = M.boundaries[nm]
+            go = getattr(g, 'ori', None)
+            remap_cases.append((f'({tbl}, {cnats(np.asarray(b))}, {"None" if o is None else "Some " + cbools(o)})',
+                                f'({cnats(np.asarray(g))}, {"None" if go is None else "Some " + cbools(go)})',
+                                ('remap', name, len(b), o is not None)))
     for k in range(ctx.n(16, 60)):
         q = rand_mesh1('MeshQuad1', rng, size=[2, int(rng.integers(2, 4))], integer=True)
         nf = q.facets.shape[1]
@@ -162,6 +186,12 @@ Definition joined (c : (nat * list key * list key * mat nat * mat nat) + (nat * 
   | inl (srt, p1, p2, t1, t2) => (gen_join_p p1 p2, maybe_sort srt (gen_join_t p1 p2 t1 t2))
   | inr (srt, p, t) => (gen_dedupe_p p, maybe_sort srt (gen_dedupe_t p t))
   end.
+Definition remapped (c : nat * list key * mat nat * mat nat * mat Z * mat nat * mat nat * list Z * list nat * option (list bool))
+  : list nat * option (list bool) :=
+  let '(ns, p, t, F, f2t, F', t2f', f2t1', ixs, ori) := c in
+  let newp := gen_remap_newp (length p) t (gen_dedupe_t p t) in
+  let nf := gen_remap_newf sort_nat ns newp F F' t2f' (map Z.to_nat (nth 0 f2t [])) in
+  gen_remap_tag nf f2t f2t1' ixs ori.
 Definition carry (c : mat nat * mat nat * list nat) : option (list nat) :=
   let '(OF, NF, b) := c in gen_carry_boundary OF NF b.
 '''
@@ -175,11 +205,14 @@ Definition carry (c : mat nat * mat nat * list nat) : option (list nat) :=
         lambda: ctx.corr('extrude', imp, 'extr', 'natss_eqb', ext_cases, defs=defs, nontrivial=lambda r: r[1] >= 3),
         lambda: ctx.corr('join_and_dedupe', imp, 'joined', '(pair_eqb keys_eqb natss_eqb)', join_cases, defs=defs,
                          nontrivial=lambda r: r[2] < 2 * r[3] if r[0] == 'join' else r[2] < r[3]),
+        lambda: ctx.corr('remove_duplicate_nodes_boundaries', imp, 'remapped',
+                         '(pair_eqb nats_eqb (option_eqb (list_eqb Bool.eqb)))', remap_cases, defs=defs,
+                         nontrivial=lambda r: r[2] >= 2),
         lambda: ctx.corr('to_meshtri_boundaries', imp, 'carry', '(option_eqb nats_eqb)', carry_cases, defs=defs,
                          nontrivial=lambda r: r[2] >= 2),
     ]
     from concurrent.futures import ThreadPoolExecutor
-    with ThreadPoolExecutor(len(jobs)) as ex:          # the coqc runs are independent processes
+    with ThreadPoolExecutor(4) as ex:                  # the coqc runs are independent processes
         list(ex.map(lambda j: j(), jobs))
 
 
